@@ -697,6 +697,10 @@ impl LpgStore {
             drop(nodes); // Release lock before removing properties
             drop(index);
             drop(node_labels);
+            // Take the node out of every property index first (needs the old values)
+            for (key, _) in self.node_properties.get_all(id) {
+                self.update_property_index_on_remove(id, &key);
+            }
             self.node_properties.remove_all(id);
 
             // Note: Caller should use delete_node_edges() first if detach is needed
